@@ -191,7 +191,8 @@ func runC06(e *core.Env) {
 				state.Mans[n.Digest] = true
 			}
 			var ents []en
-			ents = append(ents, mk(nodes[0], "docker.io/library/app:t0"))
+			// (the registry part of a full name may carry a port)
+			ents = append(ents, mk(nodes[0], []string{"docker.io/library/app:t0", "localhost:5000/proj/app:t0"}[e.Choose("gen", 2, "fullnameport")]))
 			state.Tags["t0"] = nodes[0].Digest
 			switch e.Choose("gen", 3, "dups") {
 			case 1:
